@@ -326,6 +326,7 @@ impl SecondaryStorage {
 
         // contrary to create table, we first modify the catalog
         self.apply_drop_table(&entry)?;
+        self.version.mark_table_dropped(table_id.table_id);
 
         #[cfg(risinglight_verif)]
         crate::verif::point("ddl.drop.applied", &table_id.table_id.to_string()).await;
